@@ -322,6 +322,43 @@ fn big_shapes() -> Vec<Case> {
     out
 }
 
+/// a reader that hands out at most `chunk` bytes per call (a pipe, a socket, a buffered file: `Read::read` may
+/// return fewer bytes than asked for)
+struct ShortReads<'a> {
+    data: &'a [u8],
+    pos: usize,
+    chunk: usize,
+}
+impl std::io::Read for ShortReads<'_> {
+    fn read(&mut self, buf: &mut [u8]) -> std::io::Result<usize> {
+        let n = buf.len().min(self.chunk).min(self.data.len() - self.pos);
+        buf[..n].copy_from_slice(&self.data[self.pos..self.pos + n]);
+        self.pos += n;
+        Ok(n)
+    }
+}
+
+impl C20 {
+    /// the container read through readers that return short reads must decode to the same graph as from a slice
+    fn short_reads(&self, name: &str, bytes: &[u8]) -> Vec<Discrepancy> {
+        let mut out = vec![];
+        let case = json!({"kind": "short-reads", "graph": name});
+        let want = match guard(|| deserialize_witnesscalc_graph(std::io::Cursor::new(bytes))) { Ok(Ok(w)) => w, _ => return out };
+        for chunk in [1usize, 2, 7, 4096, 8192] {
+            match guard(|| deserialize_witnesscalc_graph(ShortReads { data: bytes, pos: 0, chunk })) {
+                Ok(Ok(got)) => {
+                    if got != want {
+                        out.push(Discrepancy { key: "C20/read-in-pieces/not-equal".into(), case: case.clone(), detail: format!("{name}: read {chunk} bytes at a time the container decodes to another graph than read from a slice") });
+                    }
+                }
+                Ok(Err(e)) => out.push(Discrepancy { key: "C20/read-in-pieces/error".into(), case: case.clone(), detail: format!("{name}: read {chunk} bytes at a time: {e}") }),
+                Err(pn) => out.push(Discrepancy { key: "C20/read-in-pieces/panic".into(), case: case.clone(), detail: format!("{name}: read {chunk} bytes at a time: {pn}") }),
+            }
+        }
+        out
+    }
+}
+
 /// the graphs of the C20 evaluation sequences: two small ones of equal encoded length, two chains of 16 384 nodes of
 /// equal encoded length (different last operator), one with three named inputs
 fn seq_graphs() -> Vec<Case> {
@@ -397,6 +434,13 @@ impl Prop for C20 {
         "exploration"
     }
     fn run_case(&self, case: &Value) -> Vec<Discrepancy> {
+        if case["kind"] == "short-reads" {
+            let name = case["graph"].as_str().unwrap_or("");
+            if name == "bundled" {
+                return self.short_reads(name, rln::circuit::graph_from_folder());
+            }
+            return seq_graphs().iter().enumerate().filter(|(k, _)| format!("sequence-graph-{k}") == name).flat_map(|(_, c)| self.short_reads(name, &wtns::encode_graph(&c.nodes, &c.signals, &c.inputs))).collect();
+        }
         if case["kind"] == "seq" {
             return self.seq(&case["calls"].as_array().cloned().unwrap_or_default().iter().map(|x| x.as_u64().unwrap_or(0) as u8).collect::<Vec<u8>>());
         }
@@ -509,6 +553,19 @@ impl Prop for C20 {
         graphs += shapes.len() as u64;
         evals += shapes.len() as u64;
         ev.set("large_shape_graphs", json!(shapes.len()));
+        // the bundled graph and the sequence graphs read through readers that return short reads
+        {
+            let mut items: Vec<(String, Vec<u8>)> = vec![("bundled".to_string(), rln::circuit::graph_from_folder().to_vec())];
+            for (k, c) in seq_graphs().iter().enumerate() {
+                items.push((format!("sequence-graph-{k}"), wtns::encode_graph(&c.nodes, &c.signals, &c.inputs)));
+            }
+            let rres = par_map(&items, ncpu(), |_, (n, b)| self.short_reads(n, b));
+            for o in rres {
+                findings.report_all(o);
+            }
+            evals += 5 * items.len() as u64;
+            ev.set("containers_read_in_pieces", json!(items.len()));
+        }
         // sequences of computations over different graphs from one reused buffer on a fresh thread
         let ng = seq_graphs().len() as u8;
         let mut seqs: Vec<Vec<u8>> = vec![];
@@ -536,7 +593,7 @@ impl Prop for C20 {
         ev.set("evaluations", json!(evals));
         ev.set("programs", json!(graphs));
         ev.set("distinct_nontrivial", json!(graphs));
-        ev.set("rule", json!("program enumeration: base nodes (two inputs and one constant, five declared-input layouts incl. interleaved, vector, swapped with a gap, constant-one signal) followed by every possible 1st operation node (Neg, 19 binary operators x all operand references, TernCond x all references), every possible 2nd node, and (thorough) every 3rd node over a reduced operator set; each graph is (a) written by zerokit and read back, (b) written by an independent encoder and read by zerokit, (c) compared byte for byte with the independent encoding, (d) evaluated by graph::evaluate and by calc_witness (named inputs in both orders) on every assignment of the inputs over {0,1,2,p-1}^2 and compared with a direct reference interpretation; additionally larger graphs of fixed shapes: chains of N nodes (N around 127/128, 255/256, 16384) whose last node refers back to node 0, constants of every encoded length class, three named inputs with a vector at offsets 3/130/300 and a 150-character name, 40-element output lists; every sequence of up to 3 (thorough 4) computations over {two small graphs of equal encoded length, two 16 384-node chains of equal encoded length, a three-input graph, half a container (refused)} read from one reused buffer on a fresh thread, each compared with the reference values of its own graph; distinct_nontrivial = distinct graphs (each has at least one operation node)"));
+        ev.set("rule", json!("program enumeration: base nodes (two inputs and one constant, five declared-input layouts incl. interleaved, vector, swapped with a gap, constant-one signal) followed by every possible 1st operation node (Neg, 19 binary operators x all operand references, TernCond x all references), every possible 2nd node, and (thorough) every 3rd node over a reduced operator set; each graph is (a) written by zerokit and read back, (b) written by an independent encoder and read by zerokit, (c) compared byte for byte with the independent encoding, (d) evaluated by graph::evaluate and by calc_witness (named inputs in both orders) on every assignment of the inputs over {0,1,2,p-1}^2 and compared with a direct reference interpretation; additionally larger graphs of fixed shapes: chains of N nodes (N around 127/128, 255/256, 16384) whose last node refers back to node 0, constants of every encoded length class, three named inputs with a vector at offsets 3/130/300 and a 150-character name, 40-element output lists; the bundled graph and five others decoded through readers that return 1, 2, 7, 4096 or 8192 bytes per read; every sequence of up to 3 (thorough 4) computations over {two small graphs of equal encoded length, two 16 384-node chains of equal encoded length, a three-input graph, half a container (refused)} read from one reused buffer on a fresh thread, each compared with the reference values of its own graph; distinct_nontrivial = distinct graphs (each has at least one operation node)"));
         ev.set("exhaustive", json!(true));
         ev.set("node_budget", json!(if q { "3 base + <= 2 operation nodes" } else { "3 base + <= 3 operation nodes (3rd over a reduced operator set, 2 layouts)" }));
         ev.assume("operator semantics are those of the C19 reference; Pow and Id are outside the Montgomery evaluator's documented domain");
